@@ -417,6 +417,11 @@ def run(ctx):
            construct="LAN.authenticate (reply-caused failures)", detail={"escapes": sorted({str(e) for e in esc2})},
            fail=f"a bad handshake reply makes LAN.authenticate fail with {sorted({str(e).split('.')[-1] for e in bad2})} instead of AuthenticationError: "
                 + "; ".join(f"{e.site['function'].split('.')[-1]}: {e.site['construct'][:50]}" for e in bad2[:3]))
+    # ---- C06.t5 the reply that is proved is the reply that arrived: how a handshake response is framed, dispatched (only while one is
+    # pending) and cut out of its packet - all of it, `packet[8:]`, so that the length test above sees over-long replies - is C05's
+    # subject; its obligations are re-run here as premises
+    from . import c05
+    ctx.import_rules(c05, "t5")
     ctx.require_min("key_returns", 1)
     ctx.require_min("proofs", 1)
     ctx.require_min("state_stores", 4)
